@@ -21,12 +21,12 @@ ENCODED = ["twisted.web._flatten:escapeForContent", "twisted.web._flatten:attrib
            "twisted.web._flatten:writeWithAttributeEscaping", "twisted.web._flatten:escapedCDATA",
            "twisted.web._flatten:escapedComment", "twisted.web._flatten:_flattenElement",
            "twisted.web._flatten:_flattenTree", "twisted.web._flatten:flatten"]
-BOUNDS = {"quick": {"nt": 4, "n": 4, "nc": 6, "m": 3}, "thorough": {"nt": 6, "n": 5, "nc": 8, "m": 4}}
+BOUNDS = {"quick": {"nt": 4, "n": 4, "nc": 6, "ns": 6, "m": 3}, "thorough": {"nt": 6, "n": 5, "nc": 8, "ns": 7, "m": 4}}
 B = {}
-BOUNDS_TEXT = ("flatten() of a single text child / attribute value (<= n-1 chars), Comment (<= n) and CDATA (<= nc) "
+BOUNDS_TEXT = ("flatten() of a single text child / attribute value (<= n-1 chars), Comment (<= n) and CDATA (<= ns) "
                "with the module constant BUFFER_SIZE set to 1, 2 and 3; leaf functions: escapeForContent on <= nt "
                "characters, attribute escaping and escapedComment on <= n, escapedCDATA on <= nc, each given as str "
-               "(code points < 128) and as bytes (all 256 values); thorough tier: nt=6, n=5, nc=8, m=4 (attribute / "
+               "(code points < 128) and as bytes (all 256 values); thorough tier: nt=6, n=5, nc=8, ns=7, m=4 (attribute / "
                "comment content of 6 and trees of 5 characters were measured at > 20000 CPU s and cut); trees <p b=Y>{slot X}</p> and <div><!--X--><a href={<i>Y</i>}></a></div> with "
                "len(X) + len(Y) <= m")
 OUTSIDE = ["the real BUFFER_SIZE of 65536: per-buffer processing in the flattener (flushing, and any escaping or "
@@ -624,7 +624,7 @@ _C2 = ["%s in _SPECIAL", "%s not in _SPECIAL"]
 def sliced(kind: int, x: str, bs: int) -> bool:
     """
     pre: 0 <= kind <= 3 and 1 <= bs <= 3
-    pre: len(x) <= (B['nc'] if kind == 3 else B['n'] if kind == 2 else B['n'] - 1)
+    pre: len(x) <= (B['ns'] if kind == 3 else B['n'] if kind == 2 else B['n'] - 1)
     pre: all(ord(c) < 128 for c in x)
     post: _
     """
@@ -667,7 +667,7 @@ def sliced(kind: int, x: str, bs: int) -> bool:
 def _sliced_shards(tier):
     out = []
     for kind in range(4):
-        n = BOUNDS[tier]["nc"] if kind == 3 else BOUNDS[tier]["n"] - (0 if kind == 2 else 1)
+        n = BOUNDS[tier]["ns"] if kind == 3 else BOUNDS[tier]["n"] - (0 if kind == 2 else 1)
         for bs in (1, 2, 3):
             if kind == 3 or tier != "quick":
                 out.append(("kind == %d" % kind, "bs == %d" % bs, "len(x) <= %d" % (n - 1)))
